@@ -3,32 +3,9 @@ C17 — Unfinished or truncated BW64 files are never misread.
 
 Property theorems about the byte-level models (`unclosedFile`, `closedFile`, `readFile`).
 -/
-import Earverif.Props.C09
+import Earverif.Proofs.C17
 
 namespace Earverif.Bw64
-
-/-- `_read_chunk_header` on eight available bytes `id ++ s4` with a syntactically valid id. -/
-theorem readChunkHeader_hdr {f pre id s4 rest : Bytes} (ds : Option Ds64) (hf : f = pre ++ (id ++ (s4 ++ rest)))
-    (hid : id.length = 4) (hs : s4.length = 4) (hv : validId id = true) :
-    readChunkHeader f ds pre.length = .hdr id
-      (match ds with
-       | none => fromLE s4
-       | some d => if id = idData then d.dataSize else (d.lookup id).getD (fromLE s4)) := by
-  have hd : readAt f pre.length 8 = id ++ s4 :=
-    readAt_mid (a := pre) (b := id ++ s4) (r := rest) (by simp [hf]) rfl (by simp [hid, hs])
-  have h4 : (id ++ s4).take 4 = id := by rw [← hid]; simp
-  have h5 : (id ++ s4).drop 4 = s4 := by rw [← hid]; simp
-  simp only [readChunkHeader, hd, h4, h5, hv]
-  cases ds <;> simp [hid, hs]
-
-/-- one iteration of `_read_chunks` on a chunk that ends after the end of the file -/
-theorem readChunks_chunkEnd {f : Bytes} {ds : Option Ds64} {fuel pos : Nat} {t : Table} {w : List Warn}
-    {id : Bytes} {sz : Nat} (hh : readChunkHeader f ds pos = .hdr id sz)
-    (h1 : pos + 8 + (sz + sz % 2) > f.length)
-    (h2 : ¬ (sz % 2 = 1 ∧ id = idData ∧ pos + 8 + (sz + sz % 2) = f.length + 1)) :
-    readChunks f ds (fuel + 1) pos t w = .error .chunkEnd := by
-  rw [readChunks, hh]
-  simp only [h1, h2, ↓reduceIte]
 
 /-- **C17 (unfinished files).**  The buffer left behind by a writer that was never closed — after any
 history of `write` and setter calls, whatever chunks were given to the constructor or are still pending,
